@@ -81,3 +81,18 @@ Theorem C02_bluegreen_manual_pause_waits :
   forall s' v, o_status m = Some s' -> rp_sub s' = Some v -> su_idx v = su_idx u /\ su_state v = StPaused.
 Proof. exact Proofs.RolloutBG.bg_manual_pause_waits. Qed.
 Print Assumptions C02_bluegreen_manual_pause_waits.
+
+(* over histories: any number of reconciles, each finding an arbitrary workload / BatchRelease observation; only the
+   persisted status is carried over (so every crash point between two reconciles is covered) *)
+Theorem C02_every_history_is_gated : forall sp es st0 st e st',
+  In (st, e, st') (trace sp st0 es) ->
+  forall u x y, rp_phase st = RpProgressing -> rs_deleting sp = false ->
+  rp_prog st = Some (PrInRolling, x, y) -> rp_sub st = Some u ->
+  (su_next u = next_index (nsteps sp) (su_idx u) \/ su_next u <= 0) ->
+  (sempty (su_hash u) = true \/ su_hash u = rs_hash sp) ->
+  wl_canary (oe_w e) = su_canary_rev u ->
+  forall v, rp_sub st' = Some v ->
+  (su_idx v = su_idx u /\ su_state v = su_state u) \/
+  gated_sub sp (observed_sub (oe_w e) u) (oe_w e) (synced_br (observed_sub (oe_w e) u) (oe_br e)) v = true.
+Proof. exact every_history_is_gated. Qed.
+Print Assumptions C02_every_history_is_gated.
